@@ -21,6 +21,10 @@ type convModel struct {
 	// perm[j] = (word k, half h) for value byte j (0 = most significant);
 	// h = 0 high byte of the register, 1 low byte
 	perm   [4][2]int
+	// bits[b] = register bit (16*word + position, position 0 = least
+	// significant) that value bit b (0 = least significant) travels to/from
+	bits   [32]int
+	probed bool // the model was obtained by evaluating the function on single-bit inputs
 	conv   string // "id", "int32", "uint32", "frombits", "bits"
 	stride int64  // registers per value
 	lenOK  bool   // output length is len(in)/2 resp. len(in)*2
@@ -28,7 +32,55 @@ type convModel struct {
 	bad    string // recognised and certainly not invertible
 }
 
+// fillBits derives the bit map from the byte permutation.
+func (cm *convModel) fillBits() {
+	for j := 0; j < 4; j++ {
+		for t := 0; t < 8; t++ {
+			vb := (3-j)*8 + t
+			pos := t
+			if cm.perm[j][1] == 0 {
+				pos += 8
+			}
+			cm.bits[vb] = 16*cm.perm[j][0] + pos
+		}
+	}
+}
+
+// flipWords exchanges the two registers of the model.
+func (cm *convModel) flipWords() {
+	for j := 0; j < 4; j++ {
+		cm.perm[j][0] = 1 - cm.perm[j][0]
+	}
+	for b := range cm.bits {
+		cm.bits[b] = (cm.bits[b] + 16) % 32
+	}
+}
+
+// bytePerm derives the byte permutation from the bit map, if it is one.
+func (cm *convModel) bytePerm() bool {
+	for j := 0; j < 4; j++ {
+		base := cm.bits[(3-j)*8]
+		if base%8 != 0 {
+			return false
+		}
+		for t := 0; t < 8; t++ {
+			if cm.bits[(3-j)*8+t] != base+t {
+				return false
+			}
+		}
+		half := 1
+		if base%16 == 8 {
+			half = 0
+		}
+		cm.perm[j] = [2]int{base / 16, half}
+	}
+	return true
+}
+
 func (cm *convModel) permString() string {
+	if cm.probed && !cm.bytePerm() {
+		return fmt.Sprintf("bit map %v", cm.bits)
+	}
 	var p []string
 	for j := 0; j < 4; j++ {
 		p = append(p, fmt.Sprintf("b%d=r%d.%s", j, cm.perm[j][0], []string{"hi", "lo"}[cm.perm[j][1]]))
@@ -74,6 +126,17 @@ func c19ParseConv(c *kit.Ctx, f *kit.Func, decoder bool, T types.Type) *convMode
 }
 
 func c19ParseConvDepth(c *kit.Ctx, f *kit.Func, decoder bool, T types.Type, depth int) *convModel {
+	cm := c19ParseConvSyntax(c, f, decoder, T, depth)
+	if cm.err != "" && cm.bad == "" {
+		// not one of the recognised spellings: evaluate it on single-bit inputs
+		if pm := c19ProbeConv(c, f, decoder, T); pm != nil {
+			return pm
+		}
+	}
+	return cm
+}
+
+func c19ParseConvSyntax(c *kit.Ctx, f *kit.Func, decoder bool, T types.Type, depth int) *convModel {
 	if comp := c19Composed(c, f, decoder, T, depth); comp != nil {
 		return comp
 	}
@@ -339,6 +402,7 @@ func c19ParseConvDepth(c *kit.Ctx, f *kit.Func, decoder bool, T types.Type, dept
 	for bb := 0; bb < 4; bb++ {
 		cm.perm[valAt[bb]] = bufAt[bb]
 	}
+	cm.fillBits()
 	cm.stride = 2
 	return cm
 }
@@ -412,10 +476,11 @@ func c19R1(c *kit.Ctx, m *c19Model) {
 		if !types.Identical(d.T, e.T) {
 			return "different value type"
 		}
-		if !convInverse(d.conv, e.conv) {
+		// a probed model is bit-preserving by construction; parsed ones name their conversion
+		if !d.probed && !e.probed && !convInverse(d.conv, e.conv) {
 			return fmt.Sprintf("value conversions %s / %s are not inverse", d.conv, e.conv)
 		}
-		if d.perm != e.perm {
+		if d.bits != e.bits {
 			return fmt.Sprintf("byte maps differ: decoder %s, encoder %s", d.permString(), e.permString())
 		}
 		return ""
@@ -485,13 +550,13 @@ func c19R1(c *kit.Ctx, m *c19Model) {
 	for _, t := range ts {
 		ds := byT[t]
 		o := r.Ob(ds[0].F, nil, "word orders of "+t, "the decoders of one value type implement distinct word orders")
-		seen := map[[4][2]int]string{}
+		seen := map[[32]int]string{}
 		bad := ""
 		for _, d := range ds {
-			if prev, dup := seen[d.perm]; dup {
+			if prev, dup := seen[d.bits]; dup {
 				bad = fmt.Sprintf("%s and %s read the registers in the same order (%s)", prev, d.F.Name, d.permString())
 			}
-			seen[d.perm] = d.F.Name
+			seen[d.bits] = d.F.Name
 		}
 		if bad != "" {
 			o.Violation("%s", bad)
